@@ -16,11 +16,57 @@ from vlib import lib
 @st.composite
 def via_strategy(draw, rankings, p=4):
     """None (3 times out of p... i.e. direct construction) or a mutation recipe"""
-    if draw(st.integers(0, p - 1)) != 0 or not rankings or any(len(r) == 0 for r in rankings):
+    k = draw(st.integers(0, 2 * p - 1))
+    if k == 1:
+        # no mutation, but another public construction route than Dataset.from_raw_list (see build_route)
+        return {"kind": "route", "route": draw(st.sampled_from(ROUTES))}
+    if k != 0 or not rankings or any(len(r) == 0 for r in rankings):
         return None
     return {"kind": draw(st.sampled_from(["element", "empty", "empty", "both"])),
             "pos": [draw(st.integers(0, 10 ** 6)) for _ in range(len(rankings))],
             "where": draw(st.integers(0, len(rankings))), "nb_empty": draw(st.sampled_from([1, 1, 2]))}
+
+
+ROUTES = ["ctor", "elements", "strings", "file", "subproblem"]
+
+
+def _plain(rankings):
+    """names that the text notation is promised to carry unchanged (C18): non-negative ints only, or strings of ascii
+    letters only"""
+    names = [e for r in rankings for b in r for e in b]
+    return (all(isinstance(e, int) and not isinstance(e, bool) and e >= 0 for e in names)
+            or all(isinstance(e, str) and e.isascii() and e.isalpha() for e in names))
+
+
+def build_route(rankings, route):
+    """the same rankings through another public construction route; C16 / C18 promise the same dataset"""
+    import os
+    import shutil
+    import tempfile
+    from corankco.dataset import Dataset
+    from corankco.ranking import Ranking
+    from corankco.element import Element
+    if route == "ctor":
+        return Dataset([Ranking(r) for r in lib.raw_ranking_list(rankings)])
+    if route == "elements":
+        return Dataset.from_raw_list([[{Element(e) for e in b} for b in r] for r in rankings])
+    if route == "subproblem":
+        # the whole universe kept: a projection that removes nothing (empty rankings are kept on request)
+        d = lib.mk_dataset(rankings)
+        return d.sub_problem_from_elements(set(d.universe), keep_empty_rankings=True)
+    if not _plain(rankings):
+        return lib.mk_dataset(rankings)
+    if route == "strings":
+        return Dataset([Ranking.from_string(str(Ranking(r))) for r in lib.raw_ranking_list(rankings)])
+    base = os.path.join(lib.VERIF, ".work", "routes")
+    os.makedirs(base, exist_ok=True)
+    tmp = tempfile.mkdtemp(prefix="rt_", dir=base)
+    try:
+        path = os.path.join(tmp, "d.txt")
+        lib.mk_dataset(rankings).write(path)
+        return Dataset.from_file(path)
+    finally:
+        shutil.rmtree(tmp, ignore_errors=True)
 
 
 def default_warm(d):
@@ -49,6 +95,9 @@ def build(rankings, via, warm=None):
     if not via:
         return lib.mk_dataset(rankings)
     kind = via["kind"]
+    if kind == "route":
+        with lib.quiet():
+            return build_route(rankings, via["route"])
     bigger = [[list(b) for b in r] for r in rankings]
     extra = extra_name(rankings)
     if kind in ("element", "both"):
